@@ -11,7 +11,7 @@ use serde_json::json;
 use tls_parser::nom::error::ErrorKind;
 use tls_parser::*;
 
-pub const RULE: &str = "raw/encrypted parsers: complete sweep of 256 content types x 65536 declared lengths at n=5+L (and n=5, n=5+L+7: all types in thorough, 8 types in quick), all 65536 versions, every prefix length 0..5+L+1 for boundary and random L, complete records followed by 64 KiB .. 192 KiB of trailing bytes; plaintext parser: same framing sweeps over all 256 types x boundary/random lengths with generated valid payloads, random payloads, every prefix of generated records and the 'complete record whose content wants more bytes' family. distinct_nontrivial = distinct (family, parser, type class, length class, available class, outcome) tuples";
+pub const RULE: &str = "raw/encrypted parsers: complete sweep of 256 content types x 65536 declared lengths at n=5+L (and n=5, n=5+L+7: all types in thorough, 8 types in quick), all 65536 versions, 51 million random header triples with comparison-prone byte values (field coincidences), every prefix length 0..5+L+1 for boundary and random L, complete records followed by 64 KiB .. 192 KiB of trailing bytes; plaintext parser: same framing sweeps over all 256 types x boundary/random lengths with generated valid payloads, random payloads, every prefix of generated records and the 'complete record whose content wants more bytes' family. distinct_nontrivial = distinct (family, parser, type class, length class, available class, outcome) tuples";
 pub const ASSUMPTIONS: &[&str] = &[
     "Needed value while fewer than 5 header bytes are available is not judged",
     "address of an empty remainder / empty payload is not judged (length is)",
@@ -156,6 +156,7 @@ pub fn run(ctx: &mut Ctx) {
     ctx.floor("prefix.calls", 100_000);
     ctx.floor("content-wants-more", 2_000);
     ctx.floor("long-trailing", 1_500);
+    ctx.floor("soup.triples", 50_000_000);
 
     // --------------------------------------------- sweep: types x lengths (raw + encrypted)
     // idx = content type; each shard owns whole types
@@ -205,6 +206,56 @@ pub fn run(ctx: &mut Ctx) {
         }
     });
     ctx.mark_exhaustive("raw/encrypted: 256 content types x 65536 declared lengths with the complete record available");
+
+
+    // --------------------------------------------- header byte soup: tens of millions of (type, version, length) triples,
+    // each byte drawn half uniformly, half from values code tends to compare against, so that a
+    // condition on a COINCIDENCE of header fields is reached (single-axis sweeps above cannot)
+    let soup_chunks = ctx.tier.pick(256, 2048);
+    ctx.family("header-soup", soup_chunks, |ctx, case: &mut Case| {
+        let r = &mut case.rng;
+        let mut buf = vec![0u8; 5 + 65535 + 8];
+        r.fill(&mut buf[..4096]);
+        let per = 200_000u64;
+        let (mut ok, mut tl) = (0u64, 0u64);
+        for k in 0..per {
+            for b in buf[..5].iter_mut() {
+                *b = gen::interesting_byte(r);
+            }
+            let t = buf[0];
+            let v = u16::from_be_bytes([buf[1], buf[2]]);
+            let l = u16::from_be_bytes([buf[3], buf[4]]) as usize;
+            // complete record, header only, or one byte short
+            let n = match k % 4 {
+                0 | 1 => 5 + l + (k as usize % 3),
+                2 => (5 + l).saturating_sub(1).max(5),
+                _ => 5,
+            };
+            let p = if k % 2 == 0 { P::Raw } else { P::Enc };
+            let input = &buf[..n];
+            let o = call(p, input);
+            match &o.out {
+                Out::Ok { .. } => ok += 1,
+                Out::Incomplete(_) => {}
+                _ => tl += 1,
+            }
+            if let Some(rule) = judge(p, t, v, l, input, &o) {
+                report(ctx, p, t, v, l, &input[..input.len().min(64)], &o, rule);
+            }
+            if k % 64 == 0 {
+                // the plaintext parser on the same header (outcome class only)
+                let o = call(P::Plain, input);
+                if let Some(rule) = judge(P::Plain, t, v, l, input, &o) {
+                    report(ctx, P::Plain, t, v, l, &input[..input.len().min(64)], &o, rule);
+                }
+            }
+        }
+        ctx.evals(per + per / 64);
+        ctx.add("soup.triples", per);
+        ctx.add("seen.ok", ok);
+        ctx.add("seen.toolarge", tl);
+        ctx.shape(&("soup", case.idx % 64));
+    });
 
     // --------------------------------------------- all versions
     ctx.sweep("sweep-version", 16, |ctx, idx| {
@@ -296,7 +347,7 @@ pub fn run(ctx: &mut Ctx) {
 
     // --------------------------------------------- complete record followed by MORE than 64 KiB of trailing bytes
     // (a reader's buffer of back-to-back records): framing must not depend on how much follows
-    let n_long = ctx.tier.pick(600, 6_000);
+    let n_long = ctx.tier.pick(2400, 24000);
     ctx.family("long-trailing", n_long, |ctx, case: &mut Case| {
         let r = &mut case.rng;
         let l = match r.below(4) {
@@ -328,7 +379,7 @@ pub fn run(ctx: &mut Ctx) {
     });
 
     // --------------------------------------------- plaintext: generated valid records, all prefixes, suffixes
-    let n_valid = ctx.tier.pick(6_000, 60_000);
+    let n_valid = ctx.tier.pick(24000, 240000);
     ctx.family("plain-valid", n_valid, |ctx, case: &mut Case| {
         let r = &mut case.rng;
         let ct = *r.pick(&[0x14u8, 0x15, 0x16, 0x16, 0x16, 0x17, 0x18]);
@@ -377,7 +428,7 @@ pub fn run(ctx: &mut Ctx) {
 
     // --------------------------------------------- plaintext: complete record whose content "wants more"
     // payload = strict prefix of a valid payload, or a valid payload whose inner length fields lie upward
-    let n_more = ctx.tier.pick(8_000, 80_000);
+    let n_more = ctx.tier.pick(32000, 320000);
     ctx.family("plain-content-wants-more", n_more, |ctx, case: &mut Case| {
         let r = &mut case.rng;
         let ct = *r.pick(&[0x15u8, 0x16, 0x16, 0x18, 0x18]);
